@@ -6,7 +6,7 @@ CONSTANTS
   Power <- MCUnitPower
   MaxVal = 2
   NValid = 2
-  MaxRound = 0
+  MaxRound = 1
   ProposerOf <- MCProposerOf
   AppValue <- MCAppValue
   IsValid <- MCIsValid
@@ -16,7 +16,7 @@ CONSTANTS
   H0 = 1
   MaxHeight = 1
   MsgMaxHeight = 1
-  MaxRecv = 6
+  MaxRecv = 4
   PropShift = 1
 INIT Init
 NEXT Next
